@@ -81,6 +81,10 @@ DIRECTED = {
                       "3 getfv", "0 resize 1 1 1 1", "0 getmat 0", "0 getz0v", "0 resize 1 0 0 1", "0 getmat 0", "0 getz0v",
                       "0 setfz0v 0 0", "0 getfz0v 0", "0 resize 0 0 0 0", "0 getfv", "2 setfvself"],
     # fmin / fmax are the first / last element, not the lowest / highest (c15_fmin_fmax_lowest_highest_refuted_unordered)
+    # which frequency setter refuses what (c15_frequency_setters_accept_any_value): only add_frequency refuses negatives
+    "frequency_values": ["0 resize 0 0 0 3", "0 setfv 3 -2 0 2", "0 getfv", "0 setfreq 0 -7", "0 setfreq 1 -7", "0 setfreq 3 1",
+                         "0 getfreq 0", "0 fmin", "0 addfreq -1", "0 addfreq 0", "0 setfv 4 5 -5 5 -5", "0 getfv", "0 setfvself",
+                         "conv 0 1 0", "1 getfv", "1 setfreq 3 -1", "1 fmax"],
     "unordered_frequencies": ["0 resize 0 0 0 3", "0 setfv 3 3 1 2", "0 fmin", "0 fmax", "0 getfv", "0 setfvself", "0 fmin"],
     "mode_switches": ["0 init 4 2 2 2", "0 setz0v 2 10,0 20,0", "0 setfz0 1 1 99,0", "0 getz0 0", "0 getz0v",
                       "0 getfz0v 0", "0 getfz0v 1", "0 setz0 0 5,0", "0 hasfz0", "0 getz0v", "0 setfz0v 0 2 1,0 2,0",
